@@ -217,7 +217,12 @@ func CheckExec(prop, tier string) int {
 		for s := 0; s < bud.Seeds; s++ {
 			seeds = append(seeds, uint64(seed)*1000003+uint64(i)*97+uint64(s)+1)
 		}
-		items[i] = WorkItem{Idx: i, Prog: p, DFS: bud.DFS, Seeds: seeds, Procs: []int{1, 2, 4, 16}, Snapshot: true, Gates: gatesFor(p)}
+		gates := gatesFor(p)
+		if tier == "thorough" && p.N > 0 && i%2 == 0 {
+			// also let the harness decide the order in which tasks take their concurrency slot
+			gates = append(gates, "acquire")
+		}
+		items[i] = WorkItem{Idx: i, Prog: p, DFS: bud.DFS, Seeds: seeds, Procs: []int{1, 2, 4, 16}, Snapshot: true, Gates: gates}
 	}
 	results := RunPool(items, bud.Workers, 4*time.Minute)
 	var traces []TraceItem
